@@ -78,6 +78,9 @@ func (p *InstCore) PostProcessBeforeInstantiation(m *component_definition.Meta, 
 	if err := p.H.C.Callback("beforeInst", p.H.ID+"@"+componentName, nil); err != nil {
 		return nil, err
 	}
+	if err := p.act("beforeInst", componentName); err != nil {
+		return nil, err
+	}
 	if p.Resolve != nil {
 		if s := p.Resolve(p.H.ID, "beforeInst", componentName, m.Raw); s != nil {
 			p.H.C.Log("subst", componentName, "beforeInst@"+p.H.ID)
